@@ -123,7 +123,7 @@ def run(tier, seed, replay=None):
         except Exception as ex:      # no usable Vim: the committed recording stands
             R.count("vim_rerecord_failed")
     close_servers()
-    return R.finish(proof, rule="the committed recording of Vim 9.0 (-u NONE -N) on: every buffer over {a b space . newline} up to 3 characters (newline-terminated) x every normal-mode cursor x %d commands (motions with counts 1-3, d c y g~ gu gU g? with every motion and text object, x X r ~ J p P D C Y dd yy cc S s with counts, i a I A o O sessions with and without count, dot repeats, v/V selections with an operator, yank-put pairs) plus 7 realistic records and 3 fixed-width grids for remembered-column sequences (vertical motion, edit, vertical motion, edit) (log, CSV, code, multi-byte, prose, indented config, nested brackets) with 1-3 command sequences at random cursors; vicut is run on the same text, cursor and keys through the key loop and compared on text and cursor. quick = a 12 000-case sample plus all realistic cases; thorough = all 212 078. Deviations recorded at the baseline are keyed by corpus id (corpus/c02_baseline.json) and reported as one known finding; any other deviating case is a violation. VimSpec (Lean) is compared with Vim on every single-line case of its fragment, and a 600-case sample is re-recorded with /usr/bin/vim when present" % 641,
+    return R.finish(proof, rule="the committed recording of Vim 9.0 (-u NONE -N) on: every buffer over {a b space . newline} up to 3 characters (newline-terminated) x every normal-mode cursor x %d commands (motions with counts 1-3, d c y g~ gu gU g? with every motion and text object, x X r ~ J p P D C Y dd yy cc S s with counts, i a I A o O sessions with and without count, dot repeats, v/V selections with an operator, yank-put pairs) plus 7 realistic records and 3 fixed-width grids for remembered-column sequences (vertical motion, edit, vertical motion, edit) (log, CSV, code, multi-byte, prose, indented config, nested brackets) with 1-3 command sequences at random cursors; vicut is run on the same text, cursor and keys through the key loop and compared on text and cursor. quick = a 12 000-case sample plus all cases on the longer texts; thorough = all 214 934 (incl. the family added later: a counted command repeated by a counted dot, `2x3.`, on six longer texts at every cursor). Deviations recorded at the baseline are keyed by corpus id (corpus/c02_baseline.json) and reported as one known finding; any other deviating case is a violation. VimSpec (Lean) is compared with Vim on every single-line case of its fragment, and a 600-case sample is re-recorded with /usr/bin/vim when present" % 641,
                     level="partial",
                     assumptions=["the oracle is the recorded behaviour of Vim 9.0.1378 with default options; the recording, not a theorem, decides all commands outside the VimSpec fragment",
                                  "registers after the command are not compared (C08 covers what goes into registers)"])
